@@ -162,7 +162,7 @@ fn run() {
                             .instruments
                             .0
                             .values()
-                            .position(|s| s.instrument.name_internal.name().as_str() == format!("0_a{i}_usdt"))
+                            .position(|s| s.instrument.name_internal.name().as_str() == format!("a{i}_usdt_x0"))
                             .unwrap()
                     })
                     .collect();
